@@ -5,6 +5,8 @@
 -/
 import MpirProofs.Lemmas.Mulmod2expm1f
 import MpirProofs.Props.C01_fftring
+import MpirProofs.Props.C08_limb
+import MpirProofs.Lemmas.PowmReal
 namespace Mpir.Mm1
 open Mpir Mpir.Fft
 
@@ -147,5 +149,99 @@ theorem mpn_mulmod_bnm1_val (thr : Nat) (pp1 : List Nat → List Nat → Nat →
 -- non-vacuity: rn = 3 with an + bn = 4 ≥ rn (wrapped) and an + bn = 2 < rn (exact product, 2 limbs)
 example : bnm1 12 Fft.mulmod_2expp1_basecase 3 [0, 0, 1] [0, 5] = ([5, 0, 0], true) ∧
     bnm1 12 Fft.mulmod_2expp1_basecase 3 [B - 1] [B - 1] = ([1, B - 2], true) := by decide +kernel
+
+
+/-! ## mpn_redc_n and mpn_powm with the real mpn_mulmod_bnm1 (Mpir/Model/PowmReal.lean) -/
+open Mpir.Powm Mpir.PowmL Mpir.PowmR
+
+/-- **mpn_redc_n with mpn_mulmod_bnm1 as it is** (redc_n.c:47-80 over mulmod_2expm1.c): `redc_n_limb_spec`
+    without its hypothesis about the wrap-around product.  For `up` of 2n limbs, `mp`, `ip` with
+    `ip·m ≡ 1 (mod B^n)`, `n ≤ rn < 2n` (mulmod_bnm1's ASSERT, redc_n's ASSERT_ALWAYS) and any +1 half meeting
+    `P1Spec`: no carry is lost inside mpn_mulmod_2expm1, the borrow of the recovery stops inside `yp[0..2n)`,
+    and `rp[0..n)` are the limbs of `redc_n U m n ip` with `R < B^n`, `R·B^n ≡ U (mod m)`, `R < m` for `U < m·B^n`. -/
+theorem redc_n_unconditional (mthr : Nat) (pp1 : P1) (hpp1 : P1Spec pp1) (rn : Nat) (up mp ip : List Nat)
+    (hup : Limbs up) (hmp : Limbs mp) (hlen : up.length = 2 * mp.length) (hn : 1 ≤ mp.length)
+    (hrn1 : mp.length ≤ rn) (hrn2 : rn < 2 * mp.length)
+    (hinv : (val ip * val mp) % B ^ mp.length = 1) :
+    (redcNR mthr pp1 rn up mp ip).2 = true ∧
+    (redcNR mthr pp1 rn up mp ip).1 = toLimbs mp.length (redc_n (val up) (val mp) mp.length (val ip)) ∧
+    redc_n (val up) (val mp) mp.length (val ip) < B ^ mp.length ∧
+    (redc_n (val up) (val mp) mp.length (val ip) * B ^ mp.length ≡ val up [MOD val mp]) ∧
+    (val up < val mp * B ^ mp.length → redc_n (val up) (val mp) mp.length (val ip) < val mp) := by
+  obtain ⟨xv, xl, xL⟩ := toLimbs_spec mp.length (val (up.take mp.length) * val ip)
+  have xv' : val (toLimbs mp.length (val (up.take mp.length) * val ip)) =
+      (val up % B ^ mp.length * val ip) % B ^ mp.length := by
+    rw [xv, (val_take_mod up hup mp.length (by omega)).1]
+  obtain ⟨b1, b2, b3, b4, b5, _⟩ := mpn_mulmod_bnm1_val mthr pp1 hpp1 rn
+    (toLimbs mp.length (val (up.take mp.length) * val ip)) mp xL hmp (by omega) (by rw [xl]) (by rw [xl]; exact hrn1)
+  rw [xl] at b3
+  rw [xv'] at b4 b5
+  have hy3 : (bnm1 mthr pp1 rn (toLimbs mp.length (val (up.take mp.length) * val ip)) mp).1.length = rn := by
+    rw [b3]; omega
+  obtain ⟨c1, c2, c3, c4, c5⟩ := redc_n_limb_spec rn up mp ip _ hup hmp b2 hlen hy3 hn hrn1 hrn2 hinv b4
+    (fun h => b5.mpr h)
+  refine ⟨?_, ?_, c3, c4, c5⟩
+  · unfold redcNR; simp only; rw [b1, c1]; rfl
+  · unfold redcNR; simp only; exact c2
+
+-- non-vacuity: the example of `redc_n_exec_spec`, now through mpn_mulmod_2expm1 (n = rn = 9 limbs, basecase)
+-- and with the CRT recursion forced (threshold 1)
+example : redcNR 12 Fft.mulmod_2expp1_basecase 9 (toLimbs 18 (3 ^ 700)) (toLimbs 9 (5 ^ 200)) (toLimbs 9 (binvert (5 ^ 200) 9)) =
+    (toLimbs 9 (redc_n (3 ^ 700) (5 ^ 200 % B ^ 9) 9 (binvert (5 ^ 200) 9)), true) ∧
+    redcNR 1 Fft.mulmod_2expp1_basecase 10 (toLimbs 20 (3 ^ 800)) (toLimbs 10 (5 ^ 250)) (toLimbs 10 (binvert (5 ^ 250) 10)) =
+    (toLimbs 10 (redc_n (3 ^ 800) (5 ^ 250 % B ^ 10) 10 (binvert (5 ^ 250) 10)), true) := by decide +kernel
+
+/-- The reduction mpn_powm uses, with the real mpn_mulmod_bnm1 inside mpn_redc_n, returns exactly the limbs and
+    the flag of the reduction of part c08_limb (whose redc_n takes the least residue for mulmod_bnm1). -/
+theorem reduceLR_eq (thr mthr : Nat) (pp1 : P1) (hpp1 : P1Spec pp1) (nextSize : Nat → Nat) (mp : List Nat)
+    (hmp : Limbs mp) (hn : 1 ≤ mp.length) (hodd : val mp % 2 = 1)
+    (hns : thr ≤ mp.length → mp.length ≤ nextSize mp.length ∧ nextSize mp.length < 2 * mp.length)
+    (u : List Nat) (hu : Limbs u) (hul : u.length = 2 * mp.length) :
+    reduceLR thr mthr pp1 nextSize mp (mipOf thr mp) u = reduceL thr nextSize mp (mipOf thr mp) u := by
+  by_cases hthr : mp.length < thr
+  · unfold reduceLR reduceL; rw [if_pos hthr, if_pos hthr]
+  · obtain ⟨hr1, hr2⟩ := hns (by omega)
+    have hipv : (val (toLimbs mp.length (binvert (val mp) mp.length)) * val mp) % B ^ mp.length = 1 := by
+      rw [(toLimbs_spec _ _).1, Nat.mod_mul_mod]
+      exact binvert_spec (val mp) mp.length hn hodd
+    have hmip : mipOf thr mp = toLimbs mp.length (binvert (val mp) mp.length) := by
+      unfold mipOf; rw [if_neg hthr]
+    obtain ⟨a1, a2, _⟩ := redc_n_unconditional mthr pp1 hpp1 (nextSize mp.length) u mp _ hu hmp hul hn hr1 hr2 hipv
+    obtain ⟨e1, e2⟩ := redc_n_exec_spec (nextSize mp.length) u mp _ hu hmp hul hn hr1 hr2 hipv
+    unfold reduceLR reduceL
+    rw [if_neg hthr, if_neg hthr, hmip]
+    exact Prod.ext (by rw [a2, e2]) (by rw [a1, e1])
+
+/-- **mpn_powm on memory with the real mpn_redc_n / mpn_mulmod_bnm1 / mpn_mulmod_2expm1** (powm.c over redc_n.c over
+    mulmod_2expm1.c): `mpn_powm_correct` with nothing assumed about the wrap-around product.  Preconditions are
+    the C's (see `mpn_powm_correct`); `hns` is `n ≤ mpn_mulmod_bnm1_next_size (n) < 2n` (`next_size_bounds` for the
+    pinned tables).  Then every access stays inside `tp` / `pp`, no carry is lost inside any mpn_mulmod_2expm1 call,
+    every redc_n recovers its product, and `rp[0..n)` = `b^e mod m` in `[0, m)`. -/
+theorem mpn_powm_correct_all_sizes (thr mthr : Nat) (pp1 : P1) (hpp1 : P1Spec pp1) (nextSize binvItch : Nat → Nat)
+    (itch : Nat) (bp ep mp : List Nat)
+    (hep : Norm ep) (hne : ep ≠ []) (hmp : Limbs mp) (hn : 1 ≤ mp.length) (hodd : val mp % 2 = 1)
+    (hns : thr ≤ mp.length → mp.length ≤ nextSize mp.length ∧ nextSize mp.length < 2 * mp.length)
+    (hitch : 2 * mp.length ≤ itch) (hbinv : thr ≤ mp.length → binvItch mp.length ≤ itch) :
+    (mpnPowmMemR thr mthr pp1 nextSize binvItch itch bp ep mp).2 = true ∧
+    (mpnPowmMemR thr mthr pp1 nextSize binvItch itch bp ep mp).1 = toLimbs mp.length (val bp ^ val ep % val mp) ∧
+    val (mpnPowmMemR thr mthr pp1 nextSize binvItch itch bp ep mp).1 = val bp ^ val ep % val mp ∧
+    val (mpnPowmMemR thr mthr pp1 nextSize binvItch itch bp ep mp).1 < val mp := by
+  have hred : RedOK (reduceLR thr mthr pp1 nextSize mp (mipOf thr mp)) mp := by
+    intro u hu hul
+    rw [reduceLR_eq thr mthr pp1 hpp1 nextSize mp hmp hn hodd hns u hu hul]
+    exact reduceL_spec thr nextSize mp hmp hn hodd hns u hu hul
+  obtain ⟨h1, h2⟩ := mpnPowmMemG_correct _ thr binvItch itch bp ep mp hred hep hne hmp hn hodd hitch hbinv
+  have hmpos : 0 < val mp := by omega
+  have hlt : val bp ^ val ep % val mp < B ^ mp.length := lt_trans (Nat.mod_lt _ hmpos) (val_lt mp hmp)
+  unfold mpnPowmMemR
+  refine ⟨h1, h2, ?_, ?_⟩
+  · rw [h2, (toLimbs_spec _ _).1, Nat.mod_eq_of_lt hlt]
+  · rw [h2, (toLimbs_spec _ _).1, Nat.mod_eq_of_lt hlt]; exact Nat.mod_lt _ hmpos
+
+-- non-vacuity: redc_n branch forced (thr = 1) with the CRT recursion inside (mthr = 1) and with the basecase (mthr = 12)
+example : mpnPowmMemR 1 1 Fft.mulmod_2expp1_basecase id (fun n => 6 * n + 220) 232 [3, 4, 5] [77] [7, 9] =
+    (toLimbs 2 (val [3, 4, 5] ^ 77 % val [7, 9]), true) ∧
+    mpnPowmMemR 1 12 Fft.mulmod_2expp1_basecase id (fun n => 6 * n + 220) 232 [3, 4, 5] [77] [7, 9] =
+    (toLimbs 2 (val [3, 4, 5] ^ 77 % val [7, 9]), true) := by decide +kernel
 
 end Mpir.Mm1
